@@ -378,6 +378,10 @@ def r3_5(ctx, rc):
     c02.r2_6(ctx, rc)
     c02.r2_6b(ctx, rc)
     c02.r2_7(ctx, rc)
+    # directories made before a failing mkdir are handed off for removal
+    # (a leftover directory blocks the restoration of a foreign file)
+    from .c14 import r14_3
+    r14_3(ctx, rc)
 
 
 RULES = [
